@@ -672,20 +672,17 @@ macro_rules! assert_vfs_write_all {
             Ok(x) => x,
             _ => panic_msg!("assert_vfs_write_all!", "failed to get absolute path", $path),
         };
-        if $vfs.exists(&target) {
-            if !$vfs.is_file(&target) {
-                panic_msg!("assert_vfs_write_all!", "is not a file", &target);
-            }
-        } else {
-            match $vfs.write_all(&target, $data) {
-                Ok(_) => {
-                    if !$vfs.is_file(&target) {
-                        panic_msg!("assert_vfs_write_all!", "is not a file", &target);
-                    }
-                },
-                _ => panic_msg!("assert_vfs_write_all!", "failed while writing file", &target),
-            };
+        if $vfs.exists(&target) && !$vfs.is_file(&target) {
+            panic_msg!("assert_vfs_write_all!", "is not a file", &target);
         }
+        match $vfs.write_all(&target, $data) {
+            Ok(_) => {
+                if !$vfs.is_file(&target) {
+                    panic_msg!("assert_vfs_write_all!", "is not a file", &target);
+                }
+            },
+            _ => panic_msg!("assert_vfs_write_all!", "failed while writing file", &target),
+        };
     };
 }
 
